@@ -46,10 +46,21 @@ func (s *BigramFilter) Filter(input analysis.TokenStream) analysis.TokenStream {
 				// width of the rune as encoded in the term: an invalid byte decodes
 				// to utf8.RuneError but occupies one byte, not utf8.RuneLen(RuneError)
 				_, rlen := utf8.DecodeRune(tokout.Term[sofar:])
+				// earlier filters may have rewritten the term (width folding, U+FFFD
+				// for invalid bytes): offsets computed from the term bytes must not
+				// leave the source token
+				start := tokout.Start + sofar
+				end := start + rlen
+				if start > tokout.End {
+					start = tokout.End
+				}
+				if end > tokout.End {
+					end = tokout.End
+				}
 				token := &analysis.Token{
 					Term:         tokout.Term[sofar : sofar+rlen],
-					Start:        tokout.Start + sofar,
-					End:          tokout.Start + sofar + rlen,
+					Start:        start,
+					End:          end,
 					PositionIncr: 0,
 					Type:         tokout.Type,
 					KeyWord:      tokout.KeyWord,
